@@ -24,7 +24,8 @@ func (c13Engine) Meta() core.Meta {
 			"x torn prefix (all prefixes of the placeholder and final header, boundary+sector+seeded prefixes of body writes), seeded power-loss " +
 			"subsets of the un-synced 512-byte pieces, and on the finished file byte flips (every offset for small files), truncation to every " +
 			"length, appended tails, entries copied under another key's name, deletion, and re-creation afterwards. A second family runs the " +
-			"whole CLI: gts X cold, a fault on the entry it made (or a kill of X itself), gts X again, compared with --no-cache. After every " +
+			"whole CLI: gts X cold, a fault on the entry it made (or a kill of X itself), gts X again, compared with --no-cache. A third family " +
+			"puts 2-3 simulated processes on one or two entries at the same time - writers driving the protocol as cmd/gts/io.go does (one of them may fail, use the API sloppily, or be killed inside a seeded operation), readers - each on a goroutine that only runs between two calls of a scheduler hook at the start of a simulated I/O operation; a seeded schedule (a list of party numbers) decides whose operation is next. When a write error is injected the protocol is driven both by a careful caller and by one that ignores every error. After every " +
 			"fault the real Open is called and oracle (S) applied: Open==nil implies the bytes on disk equal an image a completed write of this " +
 			"key produced and ReadAll returns exactly that body. A case is one (workload, fault placement) evaluation; it is non-trivial when " +
 			"its state key (below) is new.",
